@@ -939,6 +939,13 @@ class Interp:
             return C(int(args[0][1]))
         if fname == ".keys" and len(args) == 1 and args[0][0] == "dict":
             return ("list", tuple(k for k, _ in args[0][1]))
+        if fname in ("builtins.max", "builtins.min", "builtins.abs") and args and not kwargs and \
+                all(is_const(a) and isinstance(a[1], (int, float)) and not isinstance(a[1], bool) for a in args):
+            vals = [a[1] for a in args]
+            if fname == "builtins.abs" and len(vals) == 1:
+                return C(abs(vals[0]))
+            if fname != "builtins.abs" and len(vals) >= 2:
+                return C(max(vals) if fname == "builtins.max" else min(vals))
         return ("call", fname, args, kwargs)
 
 
